@@ -114,6 +114,11 @@ struct vbi_proxy_client
 /* helper macro */
 #define VBI_RAW_SERVICES(SRV)           (((SRV) & (VBI_SLICED_VBI_625 | VBI_SLICED_VBI_525)) != 0)
 
+/* TRUE while a message is being received: the header (which carries the
+** length, i.e. readLen is still zero) or the body is incomplete */
+#define PROXY_MSG_INCOMPLETE(IO) \
+   (((IO)->readOff < sizeof(VBIPROXY_MSG_HEADER)) || ((IO)->readOff < (IO)->readLen))
+
 /* ----------------------------------------------------------------------------
 ** Open client connection
 ** - automatically chooses the optimum transport: TCP/IP or pipe for local
@@ -558,7 +563,7 @@ static vbi_bool proxy_client_rpc( vbi_proxy_client * vpc,
          if (vbi_proxy_msg_handle_read(&vpc->io, &io_blocked, TRUE, vpc->p_client_msg, vpc->max_client_msg_size) == FALSE)
             goto failure;
 
-      } while ((vpc->io.readOff == 0) || (vpc->io.readOff < vpc->io.readLen));
+      } while (PROXY_MSG_INCOMPLETE(&vpc->io));
 
       /* perform security checks on received message */
       if (proxy_client_check_msg(vpc, vpc->io.readLen, vpc->p_client_msg) == FALSE)
@@ -599,7 +604,8 @@ static int proxy_client_read_message( vbi_proxy_client * vpc,
 
    /* simultaneous read and write is not supported */
    assert (vpc->io.writeLen == 0);
-   assert ((vpc->io.readOff == 0) || (vpc->io.readLen < vpc->io.readOff));
+   /* an earlier call may have timed out in the middle of a message */
+   assert ((vpc->io.readOff == 0) || PROXY_MSG_INCOMPLETE(&vpc->io));
 
    if (proxy_client_alloc_msg_buf(vpc) == FALSE)
       goto failure;
@@ -615,7 +621,7 @@ static int proxy_client_read_message( vbi_proxy_client * vpc,
       if (vbi_proxy_msg_handle_read(&vpc->io, &io_blocked, TRUE, vpc->p_client_msg, vpc->max_client_msg_size) == FALSE)
          goto failure;
 
-   } while (vpc->io.readOff < vpc->io.readLen);
+   } while (PROXY_MSG_INCOMPLETE(&vpc->io));
 
    if (ret > 0)
    {
@@ -657,7 +663,7 @@ static vbi_bool proxy_client_wait_idle( vbi_proxy_client * vpc )
       tv.tv_sec  = IDLE_TIMEOUT_MSECS / 1000;
       tv.tv_usec = IDLE_TIMEOUT_MSECS * 1000;
 
-      while (vpc->io.readOff < vpc->io.readLen)
+      while (PROXY_MSG_INCOMPLETE(&vpc->io))
       {
          if (proxy_client_wait_select(vpc, &tv) <= 0)
             goto failure;
